@@ -56,6 +56,7 @@ func vfC09Packet(rt *rapid.T, connect bool, topicLen, payloadLen int) (packets.C
 
 func TestVerifC09MqttLimiter(t *testing.T) {
 	vf := vfBegin(t, "C09")
+	vf.maxSample = 2
 	defer vf.End()
 	rapid.Check(t, func(rt *rapid.T) {
 		site := rapid.SampledFrom([]string{"publish", "connect"}).Draw(rt, "site")
